@@ -7,7 +7,8 @@ from vf.core import Suite, coq_list
 from vf.gen import pick_weighted
 
 ID = "C15"
-THEOREMS = ["C15_failed_cas_refuted"]
+THEOREMS = ["C15_refines_step", "C15_refines_partial", "C15_failed_cas_refuted", "C15_pack_preserves",
+            "C15_loose_roundtrip", "C15_packed_roundtrip"]
 MODEL_FILES = ["RefStrings.v", "RefName.v", "RefGuard.v", "RefStore.v"]
 MODELLED = ("storage/filesystem/dotgit: SetRef/setRefRwfs, checkReferenceAndTruncate, readReferenceFrom, Ref, packedRef, "
             "findPackedRefsInFile, processLine, Refs (HEAD + loose walk + packed with seen), RemoveRef + rewritePackedRefsWithoutRef, "
